@@ -67,3 +67,37 @@ Example C01_header_instance :
   | _ => False
   end.
 Proof. vm_compute. split; reflexivity. Qed.
+
+(* ---------- a whole stream of the NONE / NONE pipeline, down to the bits ---------- *)
+From KV Require Import Model.Container Proofs.ContainerProofs.
+From Coq Require Import Lia.
+
+(* header, one frame per block (5-bit width, bit length, the block's own closed bit stream: mode byte,
+   length, optional checksum, the bytes), end marker - written through the bit-stream model and parsed
+   back by the reader model: for every valid configuration, every list of non-empty blocks of at most
+   8 MiB (and at most the block size), any checksum function of the right width, any read-buffer size
+   (multiple of 8) and chunk schedule of the source, the reader gets the same configuration and exactly
+   the blocks, in order, then the end marker.  Nothing is assumed about a codec here: the stages are the
+   identity and everything else is modelled. *)
+Theorem C01_container_roundtrip : forall (hash : list N -> N) (evalid tvalid : N -> bool) c,
+  cfg_ok evalid tvalid c ->
+  (h_ck c = 1%N -> forall l, (hash l < 2 ^ 32)%N) -> (h_ck c = 2%N -> forall l, (hash l < 2 ^ 64)%N) ->
+  forall blocks nframes rbuf sched,
+  Forall (blk_ok (h_bsize c)) blocks -> (length blocks < nframes)%nat -> (0 < rbuf)%N -> (rbuf mod 8 = 0)%N ->
+  parse_stream hash evalid tvalid nframes rbuf sched (write_stream hash c blocks) = Some (norm_cfg c, map PData blocks ++ [PEnd]).
+Proof. exact container_roundtrip. Qed.
+Print Assumptions C01_container_roundtrip.
+
+(* the hypotheses are met, and the statement is not about an empty stream: a concrete run *)
+Example C01_container_instance :
+  let hash := fun l : list N => (fold_left N.add l 7 mod 2 ^ 32)%N in
+  let c := mkH 1 0 0 1024 0 in
+  let blocks := [[1; 2; 3]; [255; 0; 254; 9; 8; 7; 6; 5; 4; 3; 2; 1; 0; 11; 12; 13; 14; 15; 16; 17]; [42]]%N in
+  cfg_ok (fun _ => true) (fun _ => true) c /\ Forall (blk_ok 1024) blocks /\
+  length (write_stream hash c blocks) = 68%nat /\
+  parse_stream hash (fun _ => true) (fun _ => true) 10 16 [3; 1; 5]%N (write_stream hash c blocks) = Some (c, map PData blocks ++ [PEnd]).
+Proof.
+  cbv zeta. split; [constructor; cbn; repeat split; try reflexivity; try lia; discriminate|].
+  split; [repeat constructor; cbn; try discriminate; try lia|].
+  vm_compute. split; reflexivity.
+Qed.
